@@ -94,40 +94,20 @@ def alignment_preamble(p):
     return False
 
 
-def dependent_derived_in_crossing(p):
-    """A crossing that contains a derived factor together with a factor it depends on
-    (directly or through other derived factors), or an Exclude of a level of an
-    uncrossed factor that makes a crossed derived level impossible: the code's
-    crossing size counts combinations differently from the documentation."""
+def derived_chain_in_crossing(p):
+    """A crossing that contains a within-trial derived factor together with another
+    derived factor that it reads: combinations that are impossible only through the
+    chain (the two derived levels need incompatible basic levels) are not recognised
+    as impossible by the code's per-factor test."""
     fm = _fm(p)
-
-    def deps_closure(f):
-        out = set()
-        stack = [f]
-        while stack:
-            x = stack.pop()
-            if fm[x]["kind"] == "derived":
-                for d in fm[x]["window"]["deps"]:
-                    if d not in out:
-                        out.add(d)
-                        stack.append(d)
-        return out
     for c in _crossings(p):
         for f in c:
-            if fm[f]["kind"] == "derived" and deps_closure(f) & set(c):
-                return True
-    used = set()
-    for b in p["blocks"]:
-        used.update(b.get("constraints", []))
-    crossed = set(x for c in _crossings(p) for x in c)
-    for cn in p.get("constraints", []):
-        if cn["id"] in used and cn["kind"] == "Exclude" and cn["level"][0] not in crossed:
-            # excluded level of an uncrossed factor that some crossed derived factor reads
-            for f in crossed:
-                if fm[f]["kind"] == "derived" and cn["level"][0] in deps_closure(f) | {f}:
+            fd = fm[f]
+            if fd["kind"] != "derived" or docsem.is_complex(p, fd):
+                continue
+            for d in fd["window"]["deps"]:
+                if fm[d]["kind"] == "derived" and d in c:
                     return True
-            if fm[cn["level"][0]]["kind"] == "derived":
-                return True
     return False
 
 
@@ -135,7 +115,7 @@ CAUSES = [
     ("derived-source", derived_source),
     ("window-longer-than-trials", window_longer_than_trials),
     ("alignment-preamble", alignment_preamble),
-    ("dependent-derived-in-crossing", dependent_derived_in_crossing),
+    ("derived-chain-in-crossing", derived_chain_in_crossing),
     ("complex-dependency", complex_dependency),
 ]
 
